@@ -524,6 +524,50 @@ def gen_exch(ctx):
     return out
 
 
+def gen_burst(ctx):
+    """k real requesters whose queries reach one real responder back to back (scripted PacketConn), GOMAXPROCS 1 and > 1"""
+    rng, quick = ctx.rng, ctx.tier == "quick"
+    out = []
+    dom = EXCH_DOMAINS[0]
+    plan = [(2, 1, 60), (3, 1, 40), (8, 1, 25), (2, 4, 60), (5, 4, 40), (8, 8, 25)]
+    for k, procs, rounds in plan:
+        rounds = rounds if quick else rounds * 8
+        js = {"op": "burst", "k": k, "procs": procs, "rounds": rounds, "seed": rng.randrange(1 << 40), "keep": 1, "domain": hexl(dom)}
+        out.append(Case("burst", "responder", js, (k, procs, rounds, dom)))
+    return out
+
+
+def post_burst(ctx, c):
+    (k, procs, rounds, dom), r = c.aux, c.res
+    if r.get("panic") or not r.get("ok"):
+        ctx.broken("driver", "burst driver failed: %s %s" % (r.get("panic"), r.get("err")), {"fam": "burst", "k": k, "procs": procs})
+        return None
+    terms = []
+    for ri, rd in enumerate(r.get("rounds") or []):
+        case = {"fam": "burst", "k": k, "procs": procs, "round": ri, "seed": c.js["seed"],
+                "clients": [{kk: cl[kk] for kk in ("payload", "qid", "rid", "nresp", "ok", "err", "timeout")} for cl in rd["clients"]]}
+        if rd.get("err"):
+            ctx.broken("driver", "burst round could not be set up: %s" % rd["err"], case)
+            continue
+        ctx.count(("burst", k, procs, ri, tuple(cl["payload"] for cl in rd["clients"])), kind="burst/k%d/procs%d" % (k, procs))
+        for ci, cl in enumerate(rd["clients"]):
+            p = bytes.fromhex(cl["payload"])
+            want = b"ans:" + p[::-1]
+            if cl["nresp"] != 1 or cl["rid"] != cl["qid"] or not cl["ok"] or bytes.fromhex(cl["out"]) != want:
+                ctx.fail("exchange/concurrent/misrouted",
+                         "%d queries back to back (GOMAXPROCS %d): client %d (DNS ID %#06x) was sent %d datagram(s), the first with DNS ID %#06x; "
+                         "RequestAndRecv returned %s instead of the answer to its own %d-byte payload"
+                         % (k, procs, ci, cl["qid"], cl["nresp"], cl["rid"],
+                            "nothing (timeout)" if cl["timeout"] else "error %r" % cl["err"] if not cl["ok"] else "other bytes", len(p)), case)
+            if cl.get("qwire") and cl.get("rwire"):
+                terms.append("CExch %s %s %s %s %s %s" % (gname(dom), gN(len(p)), hexs(bytes.fromhex(cl["qwire"])), gN(len(want)),
+                                                        hexs(bytes.fromhex(cl["rwire"])), gbool(not cl["ok"])))
+        if sorted(rd.get("seen") or []) != sorted(cl["payload"] for cl in rd["clients"]):
+            ctx.fail("exchange/concurrent/callback", "%d queries back to back (GOMAXPROCS %d): the callback was not given each payload exactly once"
+                     % (k, procs), case)
+    return terms
+
+
 def txt_len(n):
     return n + max(1, -(-n // 255))
 
@@ -1183,7 +1227,7 @@ def post_msg_rt(ctx, c):
                                       g_msg(r.get("msg") if r.get("ok2") else None, g_obs_rr))
 
 
-TERMS = {"trim_na": post_trim_na, "dot_rt": post_dot_rt, "dot_recv": post_dot_recv, "pb_rt": post_pb_rt, "pb_dec": post_pb_dec, "anypb_bytes": post_anypb_bytes, "name_string": post_name_string, "exchange": post_exchange, "query": post_query, "msg_rt": post_msg_rt, "msg_dec": post_msg_dec, "anypb": post_any, "obf": post_obf, "reveal": post_reveal, "fmt": post_fmt, "name_rt": post_name_rt, "read_name": post_read_name, "trim": post_trim,
+TERMS = {"burst": post_burst, "trim_na": post_trim_na, "dot_rt": post_dot_rt, "dot_recv": post_dot_recv, "pb_rt": post_pb_rt, "pb_dec": post_pb_dec, "anypb_bytes": post_anypb_bytes, "name_string": post_name_string, "exchange": post_exchange, "query": post_query, "msg_rt": post_msg_rt, "msg_dec": post_msg_dec, "anypb": post_any, "obf": post_obf, "reveal": post_reveal, "fmt": post_fmt, "name_rt": post_name_rt, "read_name": post_read_name, "trim": post_trim,
          "chunks": post_chunks, "b32": post_b32}
 
 
@@ -1234,6 +1278,10 @@ def replay_cases(ctx):
             elif fam == "exchange" and not c["resp"].startswith("len:"):
                 p_, r_, d_ = bytes.fromhex(c["data"]), bytes.fromhex(c["resp"]), unhexl(c["domain"])
                 out.append(Case("exchange", "responder", {"op": "exchange", "data": p_.hex(), "resp": r_.hex(), "domain": hexl(d_)}, (p_, r_, d_)))
+            elif fam == "burst":
+                js = {"op": "burst", "k": c["k"], "procs": c["procs"], "rounds": c["round"] + 1, "seed": c["seed"], "keep": 0,
+                      "domain": hexl(EXCH_DOMAINS[0])}
+                out.append(Case("burst", "responder", js, (c["k"], c["procs"], c["round"] + 1, EXCH_DOMAINS[0])))
             elif fam == "dot_recv":
                 b = bytes.fromhex(c["data"])
                 out.append(Case("dot_recv", "requester", {"op": "dot_recv", "data": b.hex()}, b))
@@ -1275,7 +1323,7 @@ def run(ctx):
     if rc != 0:
         ctx.broken("examples", "non-vacuity examples (C15/Examples.v) or the case evaluator (C15/Run.v) no longer check: " + out[-500:])
     _t("coq props+examples")
-    cases = replay_cases(ctx) + gen_fmt(ctx) + gen_names(ctx) + gen_req(ctx) + gen_obf(ctx) + gen_any(ctx) + gen_msg(ctx) + gen_query(ctx) + gen_exch(ctx) + gen_pb(ctx) + gen_dot(ctx)
+    cases = replay_cases(ctx) + gen_fmt(ctx) + gen_names(ctx) + gen_req(ctx) + gen_obf(ctx) + gen_any(ctx) + gen_msg(ctx) + gen_query(ctx) + gen_exch(ctx) + gen_burst(ctx) + gen_pb(ctx) + gen_dot(ctx)
     if not run_go(ctx, cases):
         return
     _t("gen + go stage 1")
@@ -1352,6 +1400,7 @@ def run(ctx):
                        "pb_rt/generic/ok", "pb_rt/prefix/ok", "pb_rt/dtls/ok", "pb_rt/any/ok", "pb_dec/prefix/ok", "pb_dec/prefix/err",
                        "pb_dec/dtls/ok", "pb_dec/dtls/err", "pb_dec/any/err", "anypb_bytes/empty/ok", "anypb_bytes/cross-empty/ok",
                        "anypb_bytes/cross-keep/err", "anypb_bytes/other/err",
+                       "burst/k2/procs1", "burst/k8/procs1", "burst/k2/procs4", "burst/k8/procs8",
                        "dot_rt/ok", "dot_rt/oversize", "dot_recv/clean", "dot_recv/error",
                        "anypb/keep/ok", "anypb/empty/ok", "anypb/tapdance/ok", "anypb/other/err", "anypb/cross-keep/err", "anypb/nil/ok"])
     _t("oracle + terms")
